@@ -52,6 +52,8 @@ def determined(hist, data):
             return False
         except Unspecified:
             return None
+        except Exception:
+            return None  # the reference model cannot interpret the pipeline (e.g. ill-typed arithmetic): no verdict
     return True
 
 
